@@ -3,6 +3,7 @@ package main
 // Rules written in the fourth session (seventh seeding round and the remarks of its sub-agents).
 
 import (
+	"fmt"
 	"go/ast"
 	"go/constant"
 	"go/token"
@@ -104,47 +105,17 @@ func ruleYAMLTab(c *Ctx, r *Rep) {
 			if t == nil {
 				return true
 			}
-			mayString := false
-			switch u := t.Underlying().(type) {
-			case *types.Basic:
-				mayString = u.Info()&types.IsString != 0
+			mayString := yamlArgMayHold(info, arg, stack, func(tt types.Type) bool {
+				b, ok := tt.Underlying().(*types.Basic)
+				if !ok || b.Info()&types.IsString == 0 {
+					return false
+				}
 				// json.Number has its own case in the encoder and holds the text of a number
-				if nt, ok := t.(*types.Named); ok && nt.Obj().Pkg() != nil && nt.Obj().Pkg().Path() == "encoding/json" && nt.Obj().Name() == "Number" {
-					mayString = false
+				if nt, ok := tt.(*types.Named); ok && nt.Obj().Pkg() != nil && nt.Obj().Pkg().Path() == "encoding/json" && nt.Obj().Name() == "Number" {
+					return false
 				}
-			case *types.Interface:
-				mayString = true
-				// the bound variable of a type switch clause: a string only where the clause admits it
-				if id, ok := arg.(*ast.Ident); ok {
-					for i := len(stack) - 1; i >= 0; i-- {
-						cc, ok := stack[i].(*ast.CaseClause)
-						if !ok || info.Implicits[cc] == nil || info.Implicits[cc] != info.Uses[id] {
-							continue
-						}
-						lists := func(cl *ast.CaseClause) bool {
-							for _, e := range cl.List {
-								if tt := info.TypeOf(e); tt != nil {
-									if b, ok := tt.Underlying().(*types.Basic); ok && b.Info()&types.IsString != 0 {
-										return true
-									}
-								}
-							}
-							return false
-						}
-						if cc.List != nil {
-							mayString = lists(cc)
-						} else if i > 0 {
-							if body, ok := stack[i-1].(*ast.BlockStmt); ok {
-								for _, st := range body.List {
-									if o, ok := st.(*ast.CaseClause); ok && o != cc && lists(o) {
-										mayString = false
-									}
-								}
-							}
-						}
-					}
-				}
-			}
+				return true
+			})
 			if !mayString {
 				return true
 			}
@@ -550,4 +521,1014 @@ func errorIface() *types.Interface {
 		errorIfaceV = types.Universe.Lookup("error").Type().Underlying().(*types.Interface)
 	}
 	return errorIfaceV
+}
+
+// ---------------------------------------------------------------------------------------------------------------------
+// R-C04-errexitsib: a VM clause shared by several opcodes treats all its error exits alike.
+
+func init() {
+	reg(&Rule{ID: "R-C04-errexitsib", Props: []string{"C04", "C02"}, Floor: 1,
+		Doc: "in a clause of the VM's dispatch switch that serves several opcodes, either every place that raises an error depends on which opcode is running or none does: an opcode added as the quiet variant of another (an optional index that backtracks instead of failing) which silences one error of the clause and not its sibling (the invalid-path error raised a few lines above) behaves like the try wrapper it replaces only outside path expressions",
+		Run: ruleErrExitSib})
+	addDecided("C04", " A VM clause serving several opcodes treats its error exits alike (R-C04-errexitsib).")
+}
+
+func ruleErrExitSib(c *Ctx, r *Rep) {
+	vm := getVM(c)
+	if vm.Err != "" {
+		r.Undecided("vm-model", token.NoPos, "%s", vm.Err)
+		return
+	}
+	errObj, codeObj := vm.Vars["err"], vm.Vars["code"]
+	n := 0
+	for _, cl := range vm.Clauses {
+		if len(cl.Ops) < 2 {
+			continue
+		}
+		n++
+		type site struct {
+			pos token.Pos
+			dep bool
+		}
+		var sites []site
+		walkStack(cl.CC, func(m ast.Node, stack []ast.Node) bool {
+			if _, ok := m.(*ast.FuncLit); ok {
+				return false
+			}
+			as, ok := m.(*ast.AssignStmt)
+			if !ok {
+				return true
+			}
+			for i, l := range as.Lhs {
+				id, ok := l.(*ast.Ident)
+				if !ok || vm.info.ObjectOf(id) != errObj {
+					continue
+				}
+				if i < len(as.Rhs) && isNilIdent(as.Rhs[i]) {
+					continue
+				}
+				// quieted: the assignment is the whole body of an `if` on code.op, and the leaving that follows is not under it
+				dep := false
+				if len(stack) >= 2 {
+					if blk, ok := stack[len(stack)-1].(*ast.BlockStmt); ok && len(blk.List) == 1 {
+						if ifs, ok := stack[len(stack)-2].(*ast.IfStmt); ok && ifs.Body == blk && mentions(ifs.Cond, func(e ast.Expr) bool {
+							sel, ok := e.(*ast.SelectorExpr)
+							if !ok || sel.Sel.Name != "op" {
+								return false
+							}
+							x, ok := unparen(sel.X).(*ast.Ident)
+							return ok && vm.info.ObjectOf(x) == codeObj
+						}) {
+							dep = true
+						}
+					}
+				}
+				sites = append(sites, site{as.Pos(), dep})
+			}
+			return true
+		})
+		key := "errexitsib:" + strings.Join(cl.Ops, ",")
+		deps := 0
+		for _, s := range sites {
+			if s.dep {
+				deps++
+			}
+		}
+		if deps != 0 && deps != len(sites) {
+			var where []string
+			for _, s := range sites {
+				where = append(where, fmt.Sprintf("%s(%s)", c.Pos(s.pos), map[bool]string{true: "silenced by code.op", false: "for every opcode that gets here"}[s.dep]))
+			}
+			r.Bad(key, cl.CC.Pos(), "the clause of %s raises errors in %d places and %d of them are silenced for some opcode (the assignment to err alone is under a test of code.op, the exit is not): %s — the opcode that is spared one error still gets the other (inside a path expression an optional constant index on a value that is not the current location raised the invalid-path error that `try` used to swallow)", strings.Join(cl.Ops, ", "), len(sites), deps, strings.Join(where, "; "))
+			continue
+		}
+		r.OK(key, cl.CC.Pos(), "%d error-raising places, %d silenced for some opcode", len(sites), deps)
+	}
+	if n == 0 {
+		r.Undecided("errexitsib:census", token.NoPos, "no clause of the dispatch switch serves several opcodes")
+	}
+}
+
+// ---------------------------------------------------------------------------------------------------------------------
+// R-C15-trywrap: every error that passes the end of a try body is wrapped.
+
+func init() {
+	reg(&Rule{ID: "R-C15-trywrap", Props: []string{"C15", "C01"}, Floor: 1,
+		Doc: "opforktryend wraps the error it sees on backtracking whenever there is one: the wrap is guarded by `err != nil` and by nothing else, except tests for the error types that opforktrybegin lets through untouched anyway — an error that passes unwrapped was raised after the try body finished and would be caught by that try",
+		Run: ruleTryWrap})
+	addDecided("C15", " Every error passing the end of a try body is wrapped for the matching begin to unwrap (R-C15-trywrap).")
+}
+
+func ruleTryWrap(c *Ctx, r *Rep) {
+	vm := getVM(c)
+	if vm.Err != "" {
+		r.Undecided("vm-model", token.NoPos, "%s", vm.Err)
+		return
+	}
+	end, begin := vm.ByOp["opforktryend"], vm.ByOp["opforktrybegin"]
+	if end == nil || begin == nil {
+		r.Undecided("trywrap:clauses", token.NoPos, "opforktryend / opforktrybegin clause not found")
+		return
+	}
+	errObj := vm.Vars["err"]
+	// the types opforktrybegin passes through: arms of its type switch over err whose body only leaves
+	pass := map[string]bool{}
+	ast.Inspect(begin.CC, func(m ast.Node) bool {
+		ts, ok := m.(*ast.TypeSwitchStmt)
+		if !ok {
+			return true
+		}
+		for _, s := range ts.Body.List {
+			cc := s.(*ast.CaseClause)
+			if len(cc.Body) == 1 {
+				if br, ok := cc.Body[0].(*ast.BranchStmt); ok && br.Tok == token.BREAK && br.Label != nil {
+					for _, e := range cc.List {
+						pass[types.ExprString(e)] = true
+					}
+				}
+			}
+		}
+		return true
+	})
+	found := false
+	walkStack(end.CC, func(m ast.Node, stack []ast.Node) bool {
+		as, ok := m.(*ast.AssignStmt)
+		if !ok || len(as.Lhs) != 1 || len(as.Rhs) != 1 {
+			return true
+		}
+		id, ok := as.Lhs[0].(*ast.Ident)
+		if !ok || vm.info.ObjectOf(id) != errObj {
+			return true
+		}
+		u, ok := unparen(as.Rhs[0]).(*ast.UnaryExpr)
+		if !ok || u.Op != token.AND {
+			return true
+		}
+		cl, ok := u.X.(*ast.CompositeLit)
+		if !ok || len(cl.Elts) != 1 {
+			return true
+		}
+		if eid, ok := cl.Elts[0].(*ast.Ident); !ok || vm.info.ObjectOf(eid) != errObj {
+			return true
+		}
+		found = true
+		// the conditions between the clause and the wrap
+		var extra []string
+		for _, a := range stack {
+			ifs, ok := a.(*ast.IfStmt)
+			if !ok {
+				continue
+			}
+			if ifs.Init != nil {
+				// `_, ok := err.(*T)` with T a pass-through type is harmless
+				okInit := false
+				if ia, ok := ifs.Init.(*ast.AssignStmt); ok && len(ia.Rhs) == 1 {
+					if ta, ok := unparen(ia.Rhs[0]).(*ast.TypeAssertExpr); ok && ta.Type != nil && pass[types.ExprString(ta.Type)] {
+						okInit = true
+					}
+				}
+				if !okInit {
+					extra = append(extra, c.Src(ifs.Init))
+				}
+			}
+			for _, cj := range splitAnd(ifs.Cond) {
+				cj = unparen(cj)
+				if id, ok := cj.(*ast.Ident); ok && id.Name == "backtrack" {
+					continue
+				}
+				if be, ok := cj.(*ast.BinaryExpr); ok && be.Op == token.NEQ && isNilIdent(be.Y) {
+					if x, ok := unparen(be.X).(*ast.Ident); ok && vm.info.ObjectOf(x) == errObj {
+						continue
+					}
+				}
+				// !isHaltError(err) and the like: a call of a predicate whose name mentions a pass-through type
+				src := c.Src(cj)
+				harmless := false
+				for t := range pass {
+					if strings.Contains(src, strings.TrimPrefix(t, "*")) || strings.Contains(strings.ToLower(src), strings.ToLower(strings.TrimPrefix(t, "*"))) {
+						harmless = true
+					}
+				}
+				if ifs.Init != nil && (src == "ok" || src == "!ok") && len(extra) == 0 {
+					harmless = true
+				}
+				if !harmless {
+					extra = append(extra, src)
+				}
+			}
+		}
+		r.Check(len(extra) == 0, "trywrap:opforktryend", as.Pos(), "the wrap `%s` happens for every error seen on backtracking (conditions besides `backtrack` and `err != nil`: %v; pass-through types of opforktrybegin: %v): %v — an error that passes the end of a try body unwrapped is caught by that try although it was raised after the body had produced its output: `try (.[]? | .) | error(\"x\")` loses the error, exit status 0", c.Src(as), extra, sortedKeys(pass), len(extra) == 0)
+		return true
+	})
+	if !found {
+		r.Bad("trywrap:opforktryend", end.CC.Pos(), "the clause of opforktryend does not wrap the error into a composite literal that holds it")
+	}
+}
+
+// ---------------------------------------------------------------------------------------------------------------------
+// R-C15-exitpass: the exit status an error asks for is the exit status of the command.
+
+func init() {
+	reg(&Rule{ID: "R-C15-exitpass", Props: []string{"C15"}, Floor: 1,
+		Doc: "where the command turns an error into its exit status, an error that has an ExitCode method decides the status by that method alone: the value of the call is returned, not compared, clamped or replaced",
+		Run: ruleExitPass})
+	addDecided("C15", " The status an error asks for through ExitCode is returned as it is (R-C15-exitpass).")
+}
+
+func ruleExitPass(c *Ctx, r *Rep) {
+	p := c.Cli
+	info := p.TypesInfo
+	n := 0
+	for _, fd := range c.Decls(p) {
+		// functions returning int that type-assert an error to an interface with ExitCode
+		if fd.Type.Results == nil || len(fd.Type.Results.List) != 1 || types.ExprString(fd.Type.Results.List[0].Type) != "int" {
+			continue
+		}
+		ast.Inspect(fd.Body, func(m ast.Node) bool {
+			ifs, ok := m.(*ast.IfStmt)
+			if !ok || ifs.Init == nil {
+				return true
+			}
+			ia, ok := ifs.Init.(*ast.AssignStmt)
+			if !ok || len(ia.Rhs) != 1 {
+				return true
+			}
+			ta, ok := unparen(ia.Rhs[0]).(*ast.TypeAssertExpr)
+			if !ok || ta.Type == nil {
+				return true
+			}
+			it, ok := info.TypeOf(ta.Type).Underlying().(*types.Interface)
+			if !ok {
+				return true
+			}
+			has := false
+			for i := 0; i < it.NumMethods(); i++ {
+				if it.Method(i).Name() == "ExitCode" {
+					has = true
+				}
+			}
+			if !has {
+				return true
+			}
+			n++
+			key := "exitpass:" + declKey(fd)
+			// the body's first statement returns the call
+			good := false
+			if len(ifs.Body.List) > 0 {
+				if rs, ok := ifs.Body.List[0].(*ast.ReturnStmt); ok && len(rs.Results) == 1 {
+					if call, ok := unparen(rs.Results[0]).(*ast.CallExpr); ok {
+						if sel, ok := call.Fun.(*ast.SelectorExpr); ok && sel.Sel.Name == "ExitCode" {
+							good = true
+						}
+					}
+				}
+			}
+			r.Check(good, key, ifs.Pos(), "%s returns err.ExitCode() itself as soon as the error has that method: %v — a status that is filtered (only 0..255 accepted, say) turns `halt_error(256)` and `halt_error(-1)` into the generic failure status", declKey(fd), good)
+			return true
+		})
+	}
+	if n == 0 {
+		r.Undecided("exitpass:census", token.NoPos, "no function of the command returning int asserts an error to an interface with ExitCode")
+	}
+}
+
+// ---------------------------------------------------------------------------------------------------------------------
+// R-C10-numberctor: texts become json.Number only where they are known to be JSON number texts.
+
+func init() {
+	reg(&Rule{ID: "R-C10-numberctor", Props: []string{"C10", "C12"}, Floor: 2,
+		Doc: "both encoders print a json.Number verbatim, so a conversion json.Number(x) outside the JSON decoder is accepted only when the result goes straight into parseNumber, when x is the String() of a *big.Int or a strconv formatting, or at the enumerated normaliser of YAML numbers (checked by R-C10-foreignnumber); a text validated by something else (the query lexer's number grammar admits `.5`, `1.`, `+1`, `01`) is not a JSON number",
+		Run: ruleNumberCtor})
+	addDecided("C10", " json.Number is constructed only from texts known to be JSON numbers (R-C10-numberctor).")
+}
+
+var numberCtorReviewed = map[string]string{
+	"normalizeYAMLNumbers": "the YAML normaliser: rebuilds the text from sign, integer part, fraction and exponent (R-C10-foreignnumber checks its pieces)",
+}
+
+func ruleNumberCtor(c *Ctx, r *Rep) {
+	n := 0
+	for _, p := range []*packages.Package{c.Gojq, c.Cli} {
+		if p == nil {
+			continue
+		}
+		info := p.TypesInfo
+		for _, fd := range c.Decls(p) {
+			if f := c.PhysFile(fd.Pos()); f == "parser.go" {
+				continue
+			}
+			walkStack(fd.Body, func(m ast.Node, stack []ast.Node) bool {
+				call, ok := m.(*ast.CallExpr)
+				if !ok || len(call.Args) != 1 {
+					return true
+				}
+				tv, ok := info.Types[call.Fun]
+				if !ok || !tv.IsType() {
+					return true
+				}
+				nt, ok := tv.Type.(*types.Named)
+				if !ok || nt.Obj().Pkg() == nil || nt.Obj().Pkg().Path() != "encoding/json" || nt.Obj().Name() != "Number" {
+					return true
+				}
+				arg := unparen(call.Args[0])
+				if at := info.TypeOf(arg); at != nil && types.Identical(at, tv.Type) {
+					return true // already a json.Number
+				}
+				n++
+				key := "numberctor:" + declKey(fd) + ":" + c.Src(call)
+				// straight into parseNumber
+				if len(stack) > 0 {
+					if outer, ok := stack[len(stack)-1].(*ast.CallExpr); ok && strings.HasSuffix(calleeName(info, outer), ".parseNumber") {
+						r.OK(key, call.Pos(), "the conversion is the argument of parseNumber, which normalises or rejects it")
+						return true
+					}
+				}
+				if ic, ok := arg.(*ast.CallExpr); ok {
+					nm := calleeName(info, ic)
+					if nm == "big.Int.String" || nm == "big.Float.String" || nm == "big.Int.Text" || nm == "Int.String" || nm == "Float.String" || nm == "Int.Text" || strings.HasPrefix(nm, "strconv.Format") || strings.HasPrefix(nm, "strconv.Itoa") {
+						r.OK(key, call.Pos(), "the text is produced by %s", nm)
+						return true
+					}
+				}
+				if _, ok := constString(info, arg); ok {
+					r.OK(key, call.Pos(), "a constant")
+					return true
+				}
+				if why, ok := numberCtorReviewed[declKey(fd)]; ok {
+					r.OK(key, call.Pos(), "enumerated — %s", why)
+					return true
+				}
+				r.Bad(key, call.Pos(), "%s in %s turns a text into a json.Number, which both encoders print as it is; nothing shows the text to be a JSON number (the accepted producers are the JSON decoder, parseNumber, big.Int.String, strconv, the YAML normaliser): `\".5\" | fromjson` would print .5, `\"+1\"` +1, `\"01\"` 01", c.Src(call), declKey(fd))
+				return true
+			})
+		}
+	}
+	if n == 0 {
+		r.Undecided("numberctor:census", token.NoPos, "no json.Number conversion found")
+	}
+}
+
+// ---------------------------------------------------------------------------------------------------------------------
+// R-C04-foldchecked: what the compiler computes at compile time and emits as a constant is not an error value.
+
+func init() {
+	reg(&Rule{ID: "R-C04-foldchecked", Props: []string{"C04", "C08"}, Floor: 0,
+		Doc: "natives report failure by returning an error as their value; the VM tests every native's result for that. A compiler function that calls a native itself (through the callback field of the function table, or one of the func… implementations) and emits the result as the operand of a constant instruction has to make the same test first — `1 / 0` folded into a constant is an error object on the stack that try cannot catch and the encoder panics on",
+		Run: ruleFoldChecked})
+	addDecided("C04", " No compile-time call of a native reaches a constant operand untested for being an error (R-C04-foldchecked).")
+}
+
+func ruleFoldChecked(c *Ctx, r *Rep) {
+	p := c.Gojq
+	info := p.TypesInfo
+	anyT := types.Universe.Lookup("any").Type()
+	isNativeSig := func(t types.Type) bool {
+		sig, ok := t.Underlying().(*types.Signature)
+		if !ok || sig.Results().Len() != 1 || !types.Identical(sig.Results().At(0).Type(), anyT) || sig.Params().Len() == 0 {
+			return false
+		}
+		for i := 0; i < sig.Params().Len(); i++ {
+			pt := sig.Params().At(i).Type()
+			if types.Identical(pt, anyT) {
+				continue
+			}
+			if sl, ok := pt.(*types.Slice); ok && types.Identical(sl.Elem(), anyT) {
+				continue
+			}
+			return false
+		}
+		return true
+	}
+	n := 0
+	for _, fd := range c.Decls(p) {
+		if fd.Recv == nil || !strings.HasPrefix(declKey(fd), "compiler.") {
+			continue
+		}
+		ast.Inspect(fd.Body, func(m ast.Node) bool {
+			call, ok := m.(*ast.CallExpr)
+			if !ok {
+				return true
+			}
+			ft := info.TypeOf(call.Fun)
+			if ft == nil || !isNativeSig(ft) {
+				return true
+			}
+			// a call of a native at compile time: dynamic (a field or variable of function type) or one of the implementations
+			if f, ok := callee(info, call).(*types.Func); ok {
+				if nm := objName(f); !strings.HasPrefix(nm, "gojq.func") {
+					return true
+				}
+			}
+			n++
+			key := "foldchecked:" + declKey(fd) + ":" + c.Src(call)
+			// where does the value go? directly into a composite literal of type code → unchecked; into a variable → the
+			// variable must be type-asserted / type-switched against error before the literal
+			checked := false
+			var holder types.Object
+			ast.Inspect(fd.Body, func(q ast.Node) bool {
+				if as, ok := q.(*ast.AssignStmt); ok {
+					for i, rhs := range as.Rhs {
+						if unparen(rhs) == ast.Expr(call) && i < len(as.Lhs) {
+							if id, ok := as.Lhs[i].(*ast.Ident); ok {
+								holder = info.ObjectOf(id)
+							}
+						}
+					}
+				}
+				return true
+			})
+			if holder != nil {
+				ast.Inspect(fd.Body, func(q ast.Node) bool {
+					switch x := q.(type) {
+					case *ast.TypeAssertExpr:
+						if id, ok := unparen(x.X).(*ast.Ident); ok && info.ObjectOf(id) == holder {
+							if x.Type == nil || types.ExprString(x.Type) == "error" {
+								checked = true
+							}
+						}
+					}
+					return true
+				})
+			}
+			r.Check(checked, key, call.Pos(), "%s calls a native while compiling; its result is tested for being an error before it is used: %v — natives return their errors as values (`1 / 0`, `1 %% 0`), and a constant instruction would push the error object as data", declKey(fd), checked)
+			return true
+		})
+	}
+	if n == 0 {
+		r.OK("foldchecked:none", token.NoPos, "no compiler function calls a native at compile time")
+	}
+}
+
+
+// yamlArgMayHold: may the argument of an Encode call be a value of a kind for which is(type) holds? A static type decides
+// for itself; an interface may hold anything, except that the bound variable of a type switch holds only what its clause
+// admits: the listed types, or — in the default clause — whatever no other clause lists.
+func yamlArgMayHold(info *types.Info, arg ast.Expr, stack []ast.Node, is func(types.Type) bool) bool {
+	t := info.TypeOf(arg)
+	if t == nil {
+		return false
+	}
+	if _, isIface := t.Underlying().(*types.Interface); !isIface {
+		return is(t)
+	}
+	may := true
+	if id, ok := arg.(*ast.Ident); ok {
+		for i := len(stack) - 1; i >= 0; i-- {
+			cc, ok := stack[i].(*ast.CaseClause)
+			if !ok || info.Implicits[cc] == nil || info.Implicits[cc] != info.Uses[id] {
+				continue
+			}
+			lists := func(cl *ast.CaseClause) bool {
+				for _, e := range cl.List {
+					if tt := info.TypeOf(e); tt != nil && is(tt) {
+						return true
+					}
+				}
+				return false
+			}
+			if cc.List != nil {
+				may = lists(cc)
+			} else if i > 0 {
+				if body, ok := stack[i-1].(*ast.BlockStmt); ok {
+					for _, st := range body.List {
+						if o, ok := st.(*ast.CaseClause); ok && o != cc && lists(o) {
+							may = false
+						}
+					}
+				}
+			}
+		}
+	}
+	return may
+}
+
+// ---------------------------------------------------------------------------------------------------------------------
+// R-C11-yamlreach: no Go map and no slice is handed to the YAML encoder.
+
+func init() {
+	reg(&Rule{ID: "R-C11-yamlreach", Props: []string{"C11", "C12"}, Floor: 1,
+		Doc: "no Encode call of the YAML dependency in the command can be handed a Go map (the encoder sorts its keys in a natural, number-aware order) or a slice (whose elements it would encode itself, maps and *big.Int included): containers reach the encoder only as nodes the command has built",
+		Run: ruleYAMLReach})
+	addDecided("C11", " Neither a Go map nor a slice can reach the YAML encoder, at any depth (R-C11-yamlreach).")
+}
+
+func ruleYAMLReach(c *Ctx, r *Rep) {
+	p := c.Cli
+	info := p.TypesInfo
+	n := 0
+	for _, fd := range c.Decls(p) {
+		walkStack(fd.Body, func(m ast.Node, stack []ast.Node) bool {
+			call, ok := m.(*ast.CallExpr)
+			if !ok || len(call.Args) != 1 {
+				return true
+			}
+			f, ok := callee(info, call).(*types.Func)
+			if !ok || f.Name() != "Encode" || !isYAMLPkg(f.Pkg()) {
+				return true
+			}
+			n++
+			arg := unparen(call.Args[0])
+			key := "yamlreach:" + declKey(fd) + ":" + c.Src(call)
+			mayMap := yamlArgMayHold(info, arg, stack, func(tt types.Type) bool {
+				_, ok := tt.Underlying().(*types.Map)
+				return ok
+			})
+			maySlice := yamlArgMayHold(info, arg, stack, func(tt types.Type) bool {
+				_, ok := tt.Underlying().(*types.Slice)
+				return ok
+			})
+			r.Check(!mayMap && !maySlice, key, call.Pos(), "%s cannot be handed a Go map (%v) or a slice (%v): %v — a shortcut that encodes a small object directly (`if len(v) < 2 { return n, n.Encode(v) }`) hands everything below it to the encoder's own key order: `{\"a\":{\"10\":1,\"9\":2}}` is written with \"9\" before \"10\"", c.Src(call), !mayMap, !maySlice, !mayMap && !maySlice)
+			return true
+		})
+	}
+	if n == 0 {
+		r.Undecided("yamlreach:census", token.NoPos, "no Encode call of the YAML dependency in the command")
+	}
+}
+
+// ---------------------------------------------------------------------------------------------------------------------
+// R-C09-identitysuffix: the two trees the grammar builds for `.[k]` and `. .[k]` are printed differently.
+
+func init() {
+	reg(&Rule{ID: "R-C09-identitysuffix", Props: []string{"C09"}, Floor: 1,
+		Doc: "the grammar builds a term of type Index for '.' followed directly by a bracket suffix, and the identity term with that suffix in its list for `term '.' suffix` / `term suffix` after the term `.`; a printer that writes the identity as `.` and a bracket suffix as `[k]` prints both as `.[k]`, which parses back as the first — so Term.writeTo has to treat the identity with suffixes specially",
+		Run: ruleIdentitySuffix})
+	addDecided("C09", " The printer tells the identity followed by a bracket suffix from the index term (R-C09-identitysuffix; D54).")
+}
+
+func ruleIdentitySuffix(c *Ctx, r *Rep) {
+	y := getYacc(c)
+	if y.Err != "" {
+		r.Undecided("identitysuffix:grammar", token.NoPos, "%s", y.Err)
+		return
+	}
+	// premise: both ways of building exist
+	direct, listed := 0, 0
+	for _, ru := range y.Rules {
+		if ru.LHS != "term" {
+			continue
+		}
+		if len(ru.RHS) == 2 && ru.RHS[0] == "'.'" && ru.RHS[1] == "suffix" && strings.Contains(ru.Action, "TermTypeIndex") {
+			direct = ru.Line
+		}
+		if len(ru.RHS) >= 2 && ru.RHS[0] == "term" && ru.RHS[len(ru.RHS)-1] == "suffix" && strings.Contains(ru.Action, "SuffixList") {
+			listed = ru.Line
+		}
+	}
+	if direct == 0 || listed == 0 {
+		r.OK("identitysuffix:premise", token.NoPos, "the grammar does not build both shapes (direct index term: rule at line %d; suffix appended to a term: line %d)", direct, listed)
+		return
+	}
+	fd := c.Decl(c.Gojq, "Term.writeTo")
+	if fd == nil {
+		r.Undecided("identitysuffix:printer", token.NoPos, "Term.writeTo not found")
+		return
+	}
+	info := c.Gojq.TypesInfo
+	// somewhere outside the switch arm that writes the identity itself, the printer looks at TermTypeIdentity together
+	// with the suffix list
+	distinguishes := false
+	ast.Inspect(fd.Body, func(m ast.Node) bool {
+		ifs, ok := m.(*ast.IfStmt)
+		if !ok {
+			return true
+		}
+		idn, sl := false, false
+		ast.Inspect(ifs.Cond, func(q ast.Node) bool {
+			switch x := q.(type) {
+			case *ast.Ident:
+				if o, ok := info.Uses[x].(*types.Const); ok && o.Name() == "TermTypeIdentity" {
+					idn = true
+				}
+			case *ast.SelectorExpr:
+				if x.Sel.Name == "SuffixList" || x.Sel.Name == "Index" {
+					sl = true
+				}
+			}
+			return true
+		})
+		// the loop variable of a range over the suffix list counts as looking at the list
+		if idn && !sl {
+			ast.Inspect(fd.Body, func(q ast.Node) bool {
+				if rs, ok := q.(*ast.RangeStmt); ok && rs.Body.Pos() <= ifs.Pos() && ifs.End() <= rs.Body.End() {
+					if sel, ok := unparen(rs.X).(*ast.SelectorExpr); ok && sel.Sel.Name == "SuffixList" {
+						sl = true
+					}
+				}
+				return true
+			})
+		}
+		if idn && sl {
+			distinguishes = true
+		}
+		return true
+	})
+	r.Check(distinguishes, "identitysuffix:Term.writeTo", fd.Pos(), "Term.writeTo has a branch on the identity term together with its suffixes: %v — the grammar (parser.go.y:%d) turns `.` directly followed by `[k]` into an index term and (parser.go.y:%d) `. .[k]` into the identity with a suffix; printed alike, `. .[0]` comes back from Parse(q.String()) as a different tree", distinguishes, direct, listed)
+}
+
+// ---------------------------------------------------------------------------------------------------------------------
+// R-C01-altcatch: `?//` hands every error but a halt to the next alternative.
+
+func init() {
+	reg(&Rule{ID: "R-C01-altcatch", Props: []string{"C01"}, Floor: 1,
+		Doc: "while an alternative of a destructuring `?//` is pending, opforkalt lets an error pass only if it is a halt: the predicate it consults returns true for *HaltError (through the tryEndError wrapper) and for no other type — a break of an outer label is an error like any other here, as in jq (`first(. as [$a] ?// $a | $a)` on [1] yields 1 and [1])",
+		Run: ruleAltCatch})
+	reg(&Rule{ID: "R-C05-stackwrite", Props: []string{"C05", "C01"}, Floor: 1,
+		Doc: "the blocks of the VM's stacks are shared with the snapshots that pending forks hold (save/restore only move index and limit), so a block is written only by push, which takes a slot above every saved limit: no other function assigns into stack.data",
+		Run: ruleStackWrite})
+	reg(&Rule{ID: "R-C20-savecaller", Props: []string{"C20"}, Floor: 3,
+		Doc: "stack.save raises the limit below which slots are not reused, and only popfork's restore lowers it again: save is called from pushfork and nowhere else — a save without a fork pins every frame below it for the rest of the run",
+		Run: ruleSaveCaller})
+	reg(&Rule{ID: "R-C20-closeexhausted", Props: []string{"C20", "C16"}, Floor: 1,
+		Doc: "the input iterator that opens the file arguments closes each file in the Next call that finds it exhausted, not when the whole iterator is closed: descriptors and readers are held for one file at a time",
+		Run: ruleCloseExhausted})
+	reg(&Rule{ID: "R-C16-streamcopy", Props: []string{"C16", "C05"}, Floor: 3,
+		Doc: "the --stream tokenizer keeps one path slice and edits it in place; every event it returns carries a copy of it, never the slice itself — events are retained by --slurp, [inputs] and `input as $x`",
+		Run: ruleStreamCopy})
+	reg(&Rule{ID: "R-C06-globalobj", Props: []string{"C06", "C09"}, Floor: 0,
+		Doc: "no package-level variable of the library holds a pointer to, or an interface implemented by, one of the library's own struct types that has a method writing its fields (a parser, lexer, compiler, env kept for reuse): Parse, Compile and Run may be called from any number of goroutines",
+		Run: ruleGlobalObj})
+	addDecided("C01", " `?//` lets only a halt pass (R-C01-altcatch).")
+	addDecided("C05", " Stack blocks are written by push alone (R-C05-stackwrite).")
+	addDecided("C20", " stack.save is called from pushfork alone (R-C20-savecaller); file arguments are closed as they are exhausted (R-C20-closeexhausted).")
+	addDecided("C16", " --stream events carry a copy of the tokenizer's path (R-C16-streamcopy).")
+	addDecided("C06", " No package-level variable holds a stateful object of the library (R-C06-globalobj).")
+}
+
+func ruleAltCatch(c *Ctx, r *Rep) {
+	vm := getVM(c)
+	if vm.Err != "" {
+		r.Undecided("vm-model", token.NoPos, "%s", vm.Err)
+		return
+	}
+	cl := vm.ByOp["opforkalt"]
+	if cl == nil {
+		r.Undecided("altcatch:clause", token.NoPos, "opforkalt clause not found")
+		return
+	}
+	info := vm.info
+	errObj := vm.Vars["err"]
+	n := 0
+	ast.Inspect(cl.CC, func(m ast.Node) bool {
+		ifs, ok := m.(*ast.IfStmt)
+		if !ok || len(ifs.Body.List) != 1 {
+			return true
+		}
+		br, ok := ifs.Body.List[0].(*ast.BranchStmt)
+		if !ok || br.Tok != token.BREAK {
+			return true
+		}
+		// `err == nil` is the no-error case
+		if be, ok := unparen(ifs.Cond).(*ast.BinaryExpr); ok && be.Op == token.EQL && isNilIdent(be.Y) {
+			return true
+		}
+		if id, ok := unparen(ifs.Cond).(*ast.Ident); ok && id.Name == "backtrack" {
+			return true
+		}
+		n++
+		key := "altcatch:" + c.Src(ifs.Cond)
+		// a type assertion on err, or a predicate of the package applied to err
+		var passes []string
+		understood := false
+		switch x := unparen(ifs.Cond).(type) {
+		case *ast.CallExpr:
+			if f, ok := callee(info, x).(*types.Func); ok && f.Pkg() == c.Gojq.Types && len(x.Args) == 1 {
+				if id, ok := unparen(x.Args[0]).(*ast.Ident); ok && info.ObjectOf(id) == errObj {
+					if d := c.Decl(c.Gojq, f.Name()); d != nil {
+						understood = true
+						ast.Inspect(d.Body, func(q ast.Node) bool {
+							cc, ok := q.(*ast.CaseClause)
+							if !ok {
+								return true
+							}
+							retTrue := false
+							for _, st := range cc.Body {
+								if rs, ok := st.(*ast.ReturnStmt); ok && len(rs.Results) == 1 && types.ExprString(rs.Results[0]) == "true" {
+									retTrue = true
+								}
+							}
+							if retTrue {
+								for _, e := range cc.List {
+									passes = append(passes, types.ExprString(e))
+								}
+							}
+							return true
+						})
+					}
+				}
+			}
+		}
+		if ifs.Init != nil {
+			if ia, ok := ifs.Init.(*ast.AssignStmt); ok && len(ia.Rhs) == 1 {
+				if ta, ok := unparen(ia.Rhs[0]).(*ast.TypeAssertExpr); ok && ta.Type != nil {
+					understood = true
+					passes = append(passes, types.ExprString(ta.Type))
+				}
+			}
+		}
+		if !understood {
+			r.Undecided(key, ifs.Pos(), "opforkalt leaves with the error under `%s`, which is neither a type assertion on err nor a predicate of the package applied to err", c.Src(ifs.Cond))
+			return true
+		}
+		good := len(passes) > 0
+		for _, t := range passes {
+			if t != "*HaltError" {
+				good = false
+			}
+		}
+		r.Check(good, key, ifs.Pos(), "opforkalt lets the error pass under `%s`, which holds for %v: only a halt passes: %v — if a break passes too, `first(. as [$a] ?// $a | $a)` on [1] yields 1 where jq (and the label/break reading of first) yields 1, [1]", c.Src(ifs.Cond), passes, good)
+		return true
+	})
+	if n == 0 {
+		r.Undecided("altcatch:census", token.NoPos, "opforkalt has no pass-through test")
+	}
+}
+
+func ruleStackWrite(c *Ctx, r *Rep) {
+	info := c.Gojq.TypesInfo
+	n := 0
+	for _, fd := range c.Decls(c.Gojq) {
+		ast.Inspect(fd.Body, func(m ast.Node) bool {
+			var lhs []ast.Expr
+			switch x := m.(type) {
+			case *ast.AssignStmt:
+				lhs = x.Lhs
+			case *ast.IncDecStmt:
+				lhs = []ast.Expr{x.X}
+			default:
+				return true
+			}
+			for _, l := range lhs {
+				// X.data[i] = …, X.data[i].f = …, X.data = …
+				e := unparen(l)
+				through := false
+				for {
+					switch x := e.(type) {
+					case *ast.SelectorExpr:
+						f, ok := selectorOn(info, x, "stack")
+						if !ok {
+							f, ok = selectorOn(info, x, "scopeStack")
+						}
+						if ok && f == "data" {
+							n++
+							key := "stackwrite:" + declKey(fd) + ":" + c.Src(l)
+							good := declKey(fd) == "stack.push" || declKey(fd) == "scopeStack.push"
+							_ = through
+							r.Check(good, key, l.Pos(), "%s assigns into the blocks of a stack (`%s`); only stack.push may: %v — a pending fork's snapshot is an index into the same blocks, so overwriting the top block in place changes what an earlier fork will see (`(try error(\"x\") catch .), .` on 1 yields \"x\", \"x\")", declKey(fd), c.Src(l), good)
+							return true
+						}
+						e = x.X
+						through = true
+						continue
+					case *ast.IndexExpr:
+						e = x.X
+						through = true
+						continue
+					case *ast.ParenExpr:
+						e = x.X
+						continue
+					}
+					break
+				}
+			}
+			return true
+		})
+	}
+	if n == 0 {
+		r.Undecided("stackwrite:census", token.NoPos, "no assignment into stack.data found (stack.push was expected)")
+	}
+}
+
+func ruleSaveCaller(c *Ctx, r *Rep) {
+	info := c.Gojq.TypesInfo
+	n := 0
+	for _, fd := range c.Decls(c.Gojq) {
+		ast.Inspect(fd.Body, func(m ast.Node) bool {
+			call, ok := m.(*ast.CallExpr)
+			if !ok {
+				return true
+			}
+			if nm := calleeName(info, call); !strings.HasSuffix(nm, "stack.save") && !strings.HasSuffix(nm, "scopeStack.save") {
+				return true
+			}
+			n++
+			good := declKey(fd) == "env.pushfork"
+			r.Check(good, "savecaller:"+declKey(fd)+":"+c.Src(call), call.Pos(), "%s calls %s; only env.pushfork, whose fork restores the limit when it is popped, may: %v — a save in the closure-call branch of opscope leaks one frame per turn of a tail-recursive function that calls a function argument", declKey(fd), c.Src(call), good)
+			return true
+		})
+	}
+	if n == 0 {
+		r.Undecided("savecaller:census", token.NoPos, "no call of stack.save found")
+	}
+}
+
+func ruleCloseExhausted(c *Ctx, r *Rep) {
+	p := c.Cli
+	info := p.TypesInfo
+	n := 0
+	for _, fd := range c.Decls(p) {
+		if fd.Name.Name != "Next" || fd.Recv == nil {
+			continue
+		}
+		// opens files: a call of os.Open (or OpenFile) whose result is stored in a field of the receiver
+		opens := false
+		var field string
+		ast.Inspect(fd.Body, func(m ast.Node) bool {
+			if call, ok := m.(*ast.CallExpr); ok {
+				if nm := calleeName(info, call); nm == "os.Open" || nm == "os.OpenFile" {
+					opens = true
+				}
+			}
+			return true
+		})
+		if !opens {
+			continue
+		}
+		n++
+		// a Close call inside Next on something taken from a field of the receiver that holds an io.Reader/File
+		closes := false
+		ast.Inspect(fd.Body, func(m ast.Node) bool {
+			call, ok := m.(*ast.CallExpr)
+			if !ok {
+				return true
+			}
+			sel, ok := call.Fun.(*ast.SelectorExpr)
+			if !ok || sel.Sel.Name != "Close" || len(call.Args) != 0 {
+				return true
+			}
+			// receiver of Close: a field holding a reader, or a variable type-asserted from such a field in the same function
+			isFileField := func(e ast.Expr) bool {
+				se, ok := unparen(e).(*ast.SelectorExpr)
+				if !ok {
+					return false
+				}
+				t := info.TypeOf(se)
+				if t == nil {
+					return false
+				}
+				ts := t.String()
+				if ts == "io.Reader" || ts == "*os.File" || ts == "io.ReadCloser" || ts == "io.Closer" {
+					field = se.Sel.Name
+					return true
+				}
+				return false
+			}
+			if isFileField(sel.X) {
+				closes = true
+				return true
+			}
+			if id, ok := unparen(sel.X).(*ast.Ident); ok {
+				o := info.ObjectOf(id)
+				ast.Inspect(fd.Body, func(q ast.Node) bool {
+					if as, ok := q.(*ast.AssignStmt); ok && len(as.Rhs) == 1 {
+						for _, l := range as.Lhs {
+							if lid, ok := l.(*ast.Ident); ok && info.ObjectOf(lid) == o {
+								if ta, ok := unparen(as.Rhs[0]).(*ast.TypeAssertExpr); ok && isFileField(ta.X) {
+									closes = true
+								}
+							}
+						}
+					}
+					return true
+				})
+			}
+			return true
+		})
+		r.Check(closes, "closeexhausted:"+declKey(fd), fd.Pos(), "%s opens the file arguments and closes the file it has finished with itself (field %q): %v — closing them all in Close keeps one descriptor and one reader per file consumed so far", declKey(fd), field, closes)
+	}
+	if n == 0 {
+		r.Undecided("closeexhausted:census", token.NoPos, "no Next method of the command opens files")
+	}
+}
+
+func ruleStreamCopy(c *Ctx, r *Rep) {
+	p := c.Cli
+	info := p.TypesInfo
+	n := 0
+	for _, fd := range c.Decls(p) {
+		if fd.Recv == nil || !strings.HasPrefix(declKey(fd), "jsonStream.") {
+			continue
+		}
+		recvObj := types.Object(nil)
+		if len(fd.Recv.List[0].Names) > 0 {
+			recvObj = info.Defs[fd.Recv.List[0].Names[0]]
+		}
+		ast.Inspect(fd.Body, func(m ast.Node) bool {
+			rs, ok := m.(*ast.ReturnStmt)
+			if !ok {
+				return true
+			}
+			for _, res := range rs.Results {
+				cl, ok := unparen(res).(*ast.CompositeLit)
+				if !ok {
+					continue
+				}
+				if _, isSlice := info.TypeOf(cl).Underlying().(*types.Slice); !isSlice {
+					continue
+				}
+				n++
+				for _, e := range cl.Elts {
+					// the element is a slice-typed field of the receiver itself (possibly resliced): shared
+					x := unparen(e)
+					if se, ok := x.(*ast.SliceExpr); ok {
+						x = unparen(se.X)
+					}
+					if sel, ok := x.(*ast.SelectorExpr); ok {
+						if id, ok := sel.X.(*ast.Ident); ok && recvObj != nil && info.Uses[id] == recvObj {
+							if _, isSl := info.TypeOf(sel).Underlying().(*types.Slice); isSl {
+								r.Bad("streamcopy:"+declKey(fd)+":"+c.Src(cl), cl.Pos(), "the event %s carries the tokenizer's own slice %s, which later tokens edit in place: `--stream -s .` on [1,2,3] yields [[[2],1],[[2],2],[[2],3],[[2]]]", c.Src(cl), c.Src(sel))
+								return true
+							}
+						}
+					}
+				}
+				r.OK("streamcopy:"+declKey(fd)+":"+c.Src(cl)+fmt.Sprintf("@%d", n), cl.Pos(), "no element of the event is a slice field of the tokenizer")
+			}
+			return true
+		})
+	}
+	if n == 0 {
+		r.Undecided("streamcopy:census", token.NoPos, "no method of jsonStream returns a slice literal")
+	}
+}
+
+func ruleGlobalObj(c *Ctx, r *Rep) {
+	p := c.Gojq
+	info := p.TypesInfo
+	// struct types of the package that have a pointer-receiver method assigning to a field of the receiver
+	stateful := map[string]bool{}
+	for _, fd := range c.Decls(p) {
+		if fd.Recv == nil || len(fd.Recv.List) == 0 || len(fd.Recv.List[0].Names) == 0 {
+			continue
+		}
+		if _, isPtr := fd.Recv.List[0].Type.(*ast.StarExpr); !isPtr {
+			continue
+		}
+		recv := info.Defs[fd.Recv.List[0].Names[0]]
+		writes := false
+		ast.Inspect(fd.Body, func(m ast.Node) bool {
+			var lhs []ast.Expr
+			switch x := m.(type) {
+			case *ast.AssignStmt:
+				if x.Tok != token.DEFINE {
+					lhs = x.Lhs
+				}
+			case *ast.IncDecStmt:
+				lhs = []ast.Expr{x.X}
+			}
+			for _, l := range lhs {
+				e := unparen(l)
+				for {
+					if ix, ok := e.(*ast.IndexExpr); ok {
+						e = unparen(ix.X)
+						continue
+					}
+					break
+				}
+				if sel, ok := e.(*ast.SelectorExpr); ok {
+					if id, ok := unparen(sel.X).(*ast.Ident); ok && info.Uses[id] == recv {
+						writes = true
+					}
+				}
+			}
+			return true
+		})
+		if writes {
+			stateful[typeName(info.TypeOf(fd.Recv.List[0].Type))] = true
+		}
+	}
+	n := 0
+	scope := p.Types.Scope()
+	for _, name := range scope.Names() {
+		v, ok := scope.Lookup(name).(*types.Var)
+		if !ok {
+			continue
+		}
+		if strings.HasSuffix(c.PhysFile(v.Pos()), "_test.go") {
+			continue
+		}
+		n++
+		t := v.Type()
+		bad := ""
+		switch u := t.(type) {
+		case *types.Pointer:
+			if nt, ok := u.Elem().(*types.Named); ok && nt.Obj().Pkg() == p.Types && stateful[nt.Obj().Name()] {
+				bad = "a pointer to " + nt.Obj().Name()
+			}
+		case *types.Named:
+			if it, ok := u.Underlying().(*types.Interface); ok && u.Obj().Pkg() == p.Types {
+				for tn := range stateful {
+					if o, ok := scope.Lookup(tn).(*types.TypeName); ok && types.Implements(types.NewPointer(o.Type()), it) {
+						bad = "the interface " + u.Obj().Name() + ", implemented by *" + tn
+					}
+				}
+			} else if _, ok := u.Underlying().(*types.Struct); ok && u.Obj().Pkg() == p.Types && stateful[u.Obj().Name()] {
+				bad = "a " + u.Obj().Name() + " value"
+			}
+		}
+		if bad != "" {
+			r.Bad("globalobj:"+name, v.Pos(), "the package-level variable %s holds %s, whose methods write its fields: an object kept for reuse across calls is shared by every goroutine that calls into the library (one parser reused by Parse: concurrent calls mix their value stacks — spurious syntax errors, wrong trees, panics)", name, bad)
+		}
+	}
+	r.OK("globalobj:census", token.NoPos, "%d package-level variables, %d stateful struct types (%v)", n, len(stateful), sortedKeys(stateful))
 }
